@@ -2626,7 +2626,7 @@ class VM:
             # Use synchronous execution (like _call_callback)
             return self._call_callback(getter, [], this_val)
         elif callable(getter):
-            return from_python(getter())
+            return self._adopt(from_python(getter()))
         return UNDEFINED
 
     def _invoke_setter(self, setter: Any, this_val: JSValue, value: JSValue) -> None:
@@ -2636,6 +2636,29 @@ class VM:
             self._call_callback(setter, [value], this_val)
         elif callable(setter):
             setter(value)
+
+    def _adopt(self, value: JSValue) -> JSValue:
+        """Arrays made by a built-in (also inside the arrays and plain objects it
+        made) inherit from this context's Array.prototype, like array literals."""
+        if not isinstance(value, JSObject) or value._prototype is not None:
+            return value
+        proto = getattr(self.globals.get("Array"), "_prototype", None)
+        if proto is None:
+            return value
+        pending, seen = [value], set()
+        while pending:
+            item = pending.pop()
+            if id(item) in seen or not isinstance(item, JSObject):
+                continue
+            seen.add(id(item))
+            if item._prototype is not None:
+                continue
+            if isinstance(item, JSArray):
+                item._prototype = proto
+                pending.extend(item._elements)
+            elif type(item) is JSObject:
+                pending.extend(item._properties.values())
+        return value
 
     def _call_function(self, arg_count: int, this_val: Optional[JSValue]) -> None:
         """Call a function."""
@@ -2649,7 +2672,7 @@ class VM:
         elif callable(callee):
             # Native function
             result = callee(*args)
-            self.stack.append(from_python(result))
+            self.stack.append(self._adopt(from_python(result)))
         else:
             raise JSTypeError(f"{callee} is not a function")
 
@@ -2664,10 +2687,10 @@ class VM:
         elif isinstance(method, JSBoundMethod):
             # JSBoundMethod expects this_val as first argument
             result = method(this_val, *args)
-            self.stack.append(from_python(result))
+            self.stack.append(self._adopt(from_python(result)))
         elif callable(method):
             result = method(*args)
-            self.stack.append(from_python(result))
+            self.stack.append(self._adopt(from_python(result)))
         else:
             raise JSTypeError(f"{method} is not a function")
 
